@@ -25,6 +25,11 @@ class _Obj:
     B = 7
 
 
+class _Falsy:
+    A = 0
+    B = ''
+
+
 def gv_menu():
     mod = types.ModuleType('gvmod')
     mod.A = 'ma'
@@ -32,6 +37,9 @@ def gv_menu():
         ('empty', {}), ('A', {'A': 'a'}), ('AB', {'A': 'a', 'B': 'b'}), ('A->{B}', {'A': '{B}', 'B': 'b'}), ('int', {'A': 1}),
         ('path', {'A': Path('/p/q')}), ('emptyname', {'': 'e', 'A': 'a'}), ('obj', _Obj()), ('module', mod), ('brace', {'A': '}{', 'B': '{A}'}),
         ('long', {'A B': 'sp', 'x': 'X'}),
+        # defined, but falsy values; mappings that are not dicts
+        ('falsy', {'A': 0, 'B': ''}), ('none-false', {'A': None, 'B': False}), ('falsy-obj', _Falsy()),
+        ('mappingproxy', types.MappingProxyType({'A': 'a', 'B': 'b'})), ('userdict', __import__('collections').UserDict({'A': 'a'})),
     ]
 
 
@@ -49,7 +57,8 @@ def gv_as_dict(gv):
 
 
 def ref_sub(s, gv):
-    if isinstance(gv, dict):
+    import collections.abc
+    if isinstance(gv, collections.abc.Mapping):
         return refmodel.substitute(s, gv)
 
     class V:
@@ -89,6 +98,10 @@ def check_string(s, gvname, gv, fn):
               and f'{got}' == e and '%s' % got == e and str(got) == e and got.upper() == e.upper() and json.dumps({'k': got}) == json.dumps({'k': e})
               and {got: 1}[e] == 1 and os.path.join('/r', got) == os.path.join('/r', e) and got.split('x') == e.split('x') and (got in {e}) and isinstance(got, str)
               and got.encode() == e.encode() and sorted([got, 'm']) == sorted([e, 'm']))
+        import pickle
+        for proto in (2, pickle.HIGHEST_PROTOCOL):
+            back = pickle.loads(pickle.dumps([got], protocol=proto))[0]   # values travel to worker processes / into pickled results
+            ok = ok and back == e and repr(back) == repr(s)
     except Exception as ex:  # noqa
         ok = False
         out.append(('not-str-like', f'{s!r} with {gvname}: {type(ex).__name__}: {ex}'))
